@@ -203,6 +203,17 @@ func mwsOf(ids []int) []types.Middleware[*H] {
 	if s, ok := mwCache[key]; ok && len(ids) > 0 {
 		return s
 	}
+	// a list that is a proper prefix of one handed out before is a re-slice of THAT list (the caller writes ms[:k]...):
+	// appending to it in place would overwrite the caller's element k
+	best := ""
+	for k, s := range mwCache {
+		if len(ids) > 0 && len(s) > len(ids) && strings.HasPrefix(k, strings.TrimSuffix(key, "]")+" ") && (best == "" || k < best) {
+			best = k
+		}
+	}
+	if best != "" {
+		return mwCache[best][:len(ids)]
+	}
 	out := make([]types.Middleware[*H], len(ids), len(ids)+8)
 	for i, id := range ids {
 		out[i] = mwOf(id)
@@ -1051,6 +1062,11 @@ func (x *executor) step(line string) string {
 			r := newRec()
 			mux.Trace(r, req, t[1] == "1")
 			return "trace " + fmtRec(r) + " text=" + encB(string(r.text))
+		})
+	case t[0] == "u-render" && len(t) == 2:
+		return protect(func() string {
+			ms, allow := mux.VerifMethodEntity(atoi(t[1]))
+			return "render " + encMethods(ms) + " " + encB(allow)
 		})
 	case t[0] == "u-split" && len(t) == 2:
 		return protect(func() string { return "split " + encL(mux.VerifSplitString(decB(t[1]))) })
